@@ -129,7 +129,8 @@ def _pkt_bytes(p):
 
 def run_framing(case):
     r = Result()
-    pkts = [_pkt_bytes(p) for p in case['pkts']]
+    # burst: many small packets (more than any plausible bound on packets in flight) that become readable at once
+    pkts = [_pkt_bytes(p) for p in case['pkts']] + [_pkt_bytes([6 if k % 3 else 5, 2 + k % 5, k & 0xFF]) for k in range(case.get('burst', 0))]
     stream = b''.join(pkts)
     tail = bytes.fromhex(case.get('tail', ''))
     full = stream + tail
@@ -208,7 +209,8 @@ def run_framing(case):
             inside = True
     r.key = ('framing', len(pkts), tuple(sorted({(e - s) for s, e in spans})), bool(tail), min(len(cuts), 5)) if inside else None
     r.classes = ('framing', 'cut-in-TL' if inside else 'no-cut-in-TL', f'pkts:{len(pkts)}', 'tail' if tail else 'clean-eof') + (('eof-same-turn',) if case.get('eof_now') else ()) + \
-        (('non-minimal-TL',) if any(len(p) > 3 and p[3] for p in case['pkts']) else ())
+        (('non-minimal-TL',) if any(len(p) > 3 and p[3] for p in case['pkts']) else ()) + \
+        (('burst>256',) if case.get('burst') else ())
     return r
 
 
@@ -236,7 +238,8 @@ def _framing_case(draw):
         if draw(st.booleans()):
             cuts.append(off + draw(st.integers(1, 5)))
         off += len(_pkt_bytes(p))
-    return {'pkts': pkts, 'tail': tail.hex(), 'cuts': cuts, 'eof_now': draw(st.integers(0, 3)) == 0}
+    burst = draw(st.sampled_from([0] * 9 + [257, 300, 520, 1100, 2100]))
+    return {'pkts': pkts, 'tail': tail.hex(), 'cuts': cuts, 'eof_now': draw(st.integers(0, 3)) == 0, 'burst': burst}
 
 
 def _framing_enum(tier):
@@ -248,6 +251,9 @@ def _framing_enum(tier):
     ]
     if tier == 'thorough':
         streams.append({'pkts': [[800, 254, 1], [5, 40, 2], [65535, 7, 3], [6, 200, 4]], 'tail': '0605aabb'})
+    for burst in (257, 400, 1000, 4200):
+        yield {'pkts': [], 'tail': '', 'cuts': [], 'burst': burst}
+        yield {'pkts': [[5, 3, 1]], 'tail': '05fd01', 'cuts': [4096], 'burst': burst, 'eof_now': True}
     for s in streams:
         n = sum(len(T.enc_num(t)) + len(T.enc_num(ln)) + ln for t, ln, _ in s['pkts']) + len(s['tail']) // 2
         yield dict(s, cuts=[])
@@ -307,7 +313,7 @@ def _input_spec():
                                      'muts': st.lists(M.mutation_spec(), min_size=1, max_size=3)})
     wide = st.fixed_dictionaries({'fam': st.just('mutated'), 'seed': st.sampled_from(sorted(SEEDS)),
                                   'muts': st.lists(M.mutation_spec(['num-wide']), min_size=1, max_size=1)})
-    near = st.fixed_dictionaries({'fam': st.just('near-bystander'), 'i': st.integers(0, 2), 'k': st.integers(0, 9)})
+    near = st.fixed_dictionaries({'fam': st.just('near-bystander'), 'i': st.integers(0, 2), 'k': st.integers(0, 19)})
     return st.one_of(raw, raw_framed, raw_framed, seed, mutated, mutated, mutated, mutated, near, wide)
 
 
@@ -318,7 +324,9 @@ def build_input(spec):
         # Data with a LONGER name than a pending Interest that has no CanBePrefix, Data for the parent, a Nack for a
         # longer name, an Interest for the parent of the handlers' prefixes
         i = spec['i']
-        k = spec['k'] % 10
+        # (k >= 10: the fragments as a link with sequence numbers sends them - a Sequence header comes first)
+        seq = [(0x51, (spec['k'] * 7 + i).to_bytes(8, 'big'))] if spec['k'] >= 10 else []
+        k = spec['k'] % 10 if spec['k'] < 10 else 5 + spec['k'] % 5
         if k == 0:
             return net.data_wire([KEEP, net.comp(f'p{i}'), net.comp('x')], content=b'longer')
         if k == 1:
@@ -333,8 +341,8 @@ def build_input(spec):
         # happens to be a complete Data for a pending Interest / Interest for a handler
         inner = net.data_wire([KEEP, net.comp(f'p{i}')], content=b'fragment?') if k % 2 else \
             net.interest_wire([KEEP, net.comp(f'h{i}'), net.comp('frag')], nonce=6)
-        fi, fc = [(0, None), (None, 0), (0, 0), (0, 1), (1, None)][(k - 5) % 5]
-        return net.lp_wrap(inner, frag_index=fi, frag_count=fc)
+        fi, fc = [(0, None), (None, 0), (0, 0), (0, 1), (1, None)][(k - 5) % 5] if not seq else [(0, 2), (1, 2), (0, 3), (2, 3), (0, 1)][k - 5]
+        return net.lp_wrap(inner, frag_index=fi, frag_count=fc, extra=seq)
     if fam == 'random':
         return bytes.fromhex(spec['hex'])
     if fam == 'random-framed':
